@@ -39,6 +39,38 @@ def build_trunc_file(frec, seed, variant=0):
     return {"segs": segs, "strfix": True}, tys
 
 
+DQ_BY_W = {1: ["Int8", "Uint8"], 2: ["Int16", "Uint16"], 4: ["Int32", "Uint32", "SingleFloat"],
+           8: ["Int64", "Uint64", "DoubleFloat"]}
+DQ_PROPS = [["NI_Scaling_Status", "String", "unscaled"], ["NI_Number_Of_Scales", "Uint32", (1).to_bytes(4, "little")]]
+
+
+def daqmx_twin(frec, fd, tys, h):
+    """-> (file description, types) of the same file stored as DAQmx raw data, or None (interleaved / strings / wide)"""
+    import copy
+    if any(s["il"] for s in frec["segs"]) or any(o["w"] not in DQ_BY_W for s in frec["segs"] for o in s["objs"]):
+        return None
+    width = {o["c"]: o["w"] for s in frec["segs"] for o in s["objs"]}
+    chans = sorted(width)
+    if not chans:
+        return None
+    buf = {PATH[c]: i for i, c in enumerate(chans)}
+    widths = [width[c] for c in chans]
+    tys2 = {c: DQ_BY_W[width[c]][(h // (3 if c == "x" else 11)) % len(DQ_BY_W[width[c]])] for c in chans}
+    fd2 = copy.deepcopy(fd)
+    fd2.pop("strfix", None)
+    seen = set()
+    for seg in fd2["segs"]:
+        for o in seg["objs"] or []:
+            c = [k for k in chans if PATH[k] == o["p"]][0]
+            o["daqmx"] = {"kind": "fc", "widths": widths, "scalers": [{"id": 0, "ty": tys2[c], "buf": buf[o["p"]], "off": 0}]}
+            o["ty"] = None
+        for e_ in seg["listed"]:
+            if e_["p"] not in seen:
+                seen.add(e_["p"])
+                e_["props"] = DQ_PROPS
+    return fd2, tys2
+
+
 def _width_conflict(frec):
     """a channel must keep one type through the file: files where the same channel has two widths are skipped"""
     w = {}
@@ -86,59 +118,86 @@ def replay_trunc_case(case):
     full = {nm: proj.expected_elems(tys[nm], e.values.get(PATH[nm], [])) for nm in tys}
     fails = []
     obs = {}
-    n = 0
+    counter = [0]
     last = frec["segs"][-1]
     last_objs = last["objs"] if last["meta"] else [o for s in frec["segs"] if s["meta"] for o in s["objs"]][-2:]
     marker_strings_multichunk = frec["marker"] and last["k"] > 1 and any(o["w"] == 0 for o in last_objs)
     stride = case.get("stride", 1)
-    for cr in sorted(rec["cuts"], key=lambda r: r["c"]):
-        c = cr["c"]
-        if stride > 1 and (c + seed) % stride != 0 and c != rec["fileLen"] and not any(c in p for p in rec["pos"]) \
-                and not any(c - 1 in p or c + 1 in p for p in rec["pos"]):
-            continue
-        if marker_strings_multichunk:
-            obs["not_judged_marker_strings_multichunk"] = obs.get("not_judged_marker_strings_multichunk", 0) + 1
-            continue
-        data = e.data[:c]
-        res = {}
-        bad = None
-        for mode in ("eager", "lazy"):
-            n += 1
-            try:
-                res[mode] = _read(TdmsFile, data, mode)
-            except Exception as ex:  # noqa
-                bad = ("exception", mode, "%s: %s" % (type(ex).__name__, ex))
-                break
-        if bad is None:
+
+    def sweep(bytes_, full_, tys_, cutmap, storage):
+        for cr in sorted(rec["cuts"], key=lambda r: r["c"]):
+            c = cr["c"]
+            if stride > 1 and (c + seed) % stride != 0 and c != rec["fileLen"] and not any(c in p for p in rec["pos"]) \
+                    and not any(c - 1 in p or c + 1 in p for p in rec["pos"]):
+                continue
+            if marker_strings_multichunk:
+                obs["not_judged_marker_strings_multichunk"] = obs.get("not_judged_marker_strings_multichunk", 0) + 1
+                continue
+            data = bytes_[:cutmap(c)]
+            res = {}
+            bad = None
             for mode in ("eager", "lazy"):
-                r = res[mode]
-                for nm in ("x", "y"):
-                    got = r["chans"].get(nm)
-                    floor = cr["floor"][nm]
-                    if got is None:
-                        if floor > 0:
-                            bad = ("lost-channel", mode, nm)
-                        continue
-                    if got["len"] != len(got["data"]):
-                        bad = ("len-vs-returned", mode, "%s: len %d returned %d" % (nm, got["len"], len(got["data"])))
-                    elif got["data"] != full.get(nm, [])[:len(got["data"])]:
-                        bad = ("not-a-prefix", mode, nm)
-                    elif got["len"] < floor:
-                        bad = ("lost-whole-segment-values", mode, "%s: %d < %d" % (nm, got["len"], floor))
-                    elif got["len"] != cr["model"][nm]:
-                        obs["reader_model_differs"] = obs.get("reader_model_differs", 0) + 1
-                if bad is None and r["incomplete"] != bool(cr["incomplete"]):
-                    bad = ("status", mode, "incomplete_final_segment %r, cut in raw data %r" % (r["incomplete"],
-                                                                                           cr["incomplete"]))
-            if bad is None and res["eager"]["chans"] != res["lazy"]["chans"]:
-                bad = ("lazy-vs-eager", "both", "")
-        if bad is not None:
-            fails.append(({"kind": "truncation", "what": bad[0], "mode": bad[1], "marker": bool(frec["marker"]),
-                           "strings": any(o["w"] == 0 for s in frec["segs"] for o in s["objs"]),
-                           "il": any(s["il"] for s in frec["segs"])},
-                          {"file": frec, "types": tys, "cut": c, "detail": bad[2], "expect": cr, "observed": res,
-                           "seed": seed, "variant": case.get("variant", 0), "hex": e.data.hex()}))
-            if len(fails) >= 4:
-                break
+                counter[0] += 1
+                try:
+                    res[mode] = _read(TdmsFile, data, mode)
+                except Exception as ex:  # noqa
+                    bad = ("exception", mode, "%s: %s" % (type(ex).__name__, ex))
+                    break
+            if bad is None:
+                for mode in ("eager", "lazy"):
+                    r = res[mode]
+                    for nm in ("x", "y"):
+                        got = r["chans"].get(nm)
+                        floor = cr["floor"][nm]
+                        if got is None:
+                            if floor > 0:
+                                bad = ("lost-channel", mode, nm)
+                            continue
+                        if got["len"] != len(got["data"]):
+                            bad = ("len-vs-returned", mode, "%s: len %d returned %d" % (nm, got["len"], len(got["data"])))
+                        elif got["data"] != full_.get(nm, [])[:len(got["data"])]:
+                            bad = ("not-a-prefix", mode, nm)
+                        elif got["len"] < floor:
+                            bad = ("lost-whole-segment-values", mode, "%s: %d < %d" % (nm, got["len"], floor))
+                        elif got["len"] != cr["model"][nm] and storage == "plain":
+                            obs["reader_model_differs"] = obs.get("reader_model_differs", 0) + 1
+                    if bad is None and r["incomplete"] != bool(cr["incomplete"]):
+                        bad = ("status", mode, "incomplete_final_segment %r, cut in raw data %r" % (r["incomplete"],
+                                                                                               cr["incomplete"]))
+                if bad is None and res["eager"]["chans"] != res["lazy"]["chans"]:
+                    bad = ("lazy-vs-eager", "both", "")
+            if bad is not None:
+                fails.append(({"kind": "truncation", "what": bad[0], "mode": bad[1], "marker": bool(frec["marker"]),
+                               "strings": any(o["w"] == 0 for s in frec["segs"] for o in s["objs"]),
+                               "il": any(s["il"] for s in frec["segs"]), "storage": storage},
+                              {"file": frec, "types": tys_, "cut": c, "cut_in_bytes": cutmap(c), "detail": bad[2],
+                               "expect": cr, "observed": res, "storage": storage,
+                               "seed": seed, "variant": case.get("variant", 0), "hex": bytes_.hex()}))
+                if len(fails) >= 4:
+                    break
+
+    sweep(e.data, full, tys, lambda c: c, "plain")
+    # the same file stored as DAQmx raw data (one raw buffer per channel, width = value size): raw data regions have the
+    # same lengths, metadata is longer; a cut is carried over structurally (same segment, same region, same offset)
+    twin = daqmx_twin(frec, fd, tys, zlib.crc32(repr(frec).encode()) + seed) if not fails else None
+    if twin is not None:
+        fd2, tys2 = twin
+        e2 = enc.encode(fd2, seed)
+        full2 = {nm: proj.expected_elems(tys2[nm], list(e2.scaler_values.get(PATH[nm], {}).get(0, []))) for nm in tys2}
+
+        def cutmap(c):
+            if c >= len(e.data):
+                return len(e2.data)
+            for a, b in zip(e.segs, e2.segs):
+                if a["pos"] <= c < a["nextPos"] or (c < a["nextPos"]):
+                    if c <= a["pos"] + 28:
+                        return b["pos"] + (c - a["pos"])
+                    if c < a["dataPos"]:
+                        return max(b["pos"] + 29, b["dataPos"] - (a["dataPos"] - c))
+                    return b["dataPos"] + (c - a["dataPos"])
+            return len(e2.data)
+        sweep(e2.data, full2, tys2, cutmap, "daqmx")
+        obs["daqmx_twins"] = 1
+    n = counter[0]
     key = zlib.crc32(repr(frec).encode())
     return {"n": n, "keys": [key], "fails": fails, "validated": 1, "obs": obs}
